@@ -149,6 +149,15 @@ class C20(Lab):
             # the same for other byte containers
             if len(d) <= 16 and (self.call(list(d)) != want or self.call(bytearray(d)) != want):
                 raise Violation("C20/value", f"crc7 differs between bytes/list/bytearray for {d.hex()}")
+            # ... and for one buffer object that is modified in place between calls (how a protocol
+            # driver re-uses its receive buffer): the checksum is a function of the contents only
+            if 1 <= len(d) <= 64:
+                for buf in (bytearray(d), list(d)):
+                    self.call(buf)
+                    for j in (0, len(d) // 2, len(d) - 1):
+                        buf[j] ^= 1 << (j % 8)
+                        if self.call(buf) != bitserial(bytes(buf)):
+                            raise Violation("C20/value-reused-buffer", f"buffer modified in place: crc7({bytes(buf).hex()}) = {self.call(buf)}, bit-serial {bitserial(bytes(buf))}")
             return {"nontrivial": len(d) >= 2, "classes": ["msg", f"len{min(len(d).bit_length(), 9)}"]}
         if k == "lin":
             a, b = bytes.fromhex(case["a"]), bytes.fromhex(case["b"])
